@@ -208,7 +208,8 @@ def replay_behaviour(bins, beh_index, actions, scheme, ids, ignored, rng, obs_ev
             sim.analyze()
             if k in ("cp_update", "cp_delete", "out_delete_all", "cp_update_fault") or rng.random() < 0.15:
                 sim.show()
-            if sim.cp_set and len(sim.shas) >= 1 and rng.random() < 0.35:
+            # explicit --begin / --end: with a checkpoint (C02), and without one (C19: still "no checkpoint, every target")
+            if len(sim.shas) >= 1 and rng.random() < (0.35 if sim.cp_set else 0.6):
                 b = rng.randint(0, len(sim.shas))
                 e = rng.randint(0, len(sim.shas))
                 if b or e:
@@ -270,6 +271,38 @@ def random_actions(rng, ids, ignored, n, maxc=30):
         elif r < 0.94:
             acts.append({"a": "out_delete_all"}); cp = False
     return acts
+
+
+def huge_pending_behaviour(bins, beh, n):
+    """A pending set whose checkpoint record is larger than a megabyte (n untracked files with ~420-byte paths): what
+    `checkpoint update --pending` printed must be what `checkpoint show` returns, and nothing is changed afterwards."""
+    ids = ["af"]
+    sim = RepoSim(bins, "plain", ids, [], beh, with_run=False)
+    try:
+        fx = sim.fx
+        d1, d2 = "d" * 200, "e" * 180
+        names = ["a/%s/%s%05d" % (d1, d2, i) if i % 2 else "b/%s/%s%05d" % (d1, d2, i) for i in range(n)]
+        for nm in names:
+            sim.id2path[nm] = nm
+            sim.path2id[nm] = nm
+        sim.events[0]["paths"] += [{"id": nm, "comp": runlib.P(nm)} for nm in names]
+        sim.events[0]["init"] += [[nm, 0] for nm in names]
+        sim.ids = ids + names
+        for nm in names:
+            sim.wt[nm] = 0; sim.idx[nm] = 0
+        for k, nm in enumerate(names):
+            c = 3 + (k % 30)
+            os.makedirs(os.path.dirname(os.path.join(fx.repo, nm)), exist_ok=True)
+            with open(os.path.join(fx.repo, nm), "w") as f:
+                f.write(content(c))
+            sim.wt[nm] = c
+            sim.events.append({"ev": "write", "p": nm, "c": c})
+        sim.act({"a": "cp_update", "id": 0, "pending": True})
+        sim.show()
+        sim.analyze()
+        return sim.events
+    finally:
+        sim.close()
 
 
 CJK = "零一二三四五六七八九"
@@ -406,10 +439,14 @@ def run(pid, tier):
         jobs.append((len(jobs), None, "bulk", n, None))
     for n in ([400] if tier == "quick" else [150, 400, 900]):
         jobs.append((len(jobs), None, "bulkwide", n, None))
+    if pid == "C19" or tier == "thorough":
+        jobs.append((len(jobs), None, "hugepending", 2600, None))
     def one(job):
         i, acts, scheme, ids, ign = job
         if scheme == "bulk":
             return bulk_behaviour(bins, i, ids, random.Random(chk.seed * 7919 + i))
+        if scheme == "hugepending":
+            return huge_pending_behaviour(bins, i, ids)
         if scheme == "bulkwide":
             return bulk_behaviour(bins, i, ids, random.Random(chk.seed * 7919 + i), wide=True)
         return replay_behaviour(bins, i, acts, scheme, ids, ign, random.Random(chk.seed * 7919 + i))
